@@ -253,7 +253,7 @@ func partBinary(goose, dir, work, tier string, acc *ev.Acc) {
 	soloFiles := map[string]map[string]string{}
 	soloErr := map[string]string{}
 	soloCode := map[string]int{}
-	for _, n := range pkgNames {
+	for _, n := range append(append([]string{}, pkgNames...), "t") {
 		out := filepath.Join(work, "solo_"+n)
 		code, stderr := runBin(goose, dir, out, nil, pats([]string{n}))
 		soloFiles[n], soloErr[n], soloCode[n] = tree(out), stderrKey(stderr, dir), code
@@ -314,6 +314,14 @@ func partBinary(goose, dir, work, tier string, acc *ev.Acc) {
 				}
 			}
 		}
+	}
+	// t reaches two FFIs and is refused: translated together with others it must not take them down
+	for _, order := range [][]string{{"a", "t"}, {"t", "a"}, {"e", "t"}, {"t", "e"}, append(append([]string{}, pkgNames...), "t"), append([]string{"t"}, pkgNames...)} {
+		if tier == "flags" && len(order) != 2 {
+			continue
+		}
+		id++
+		jobs = append(jobs, job{id, order, 0, 0})
 	}
 	var wg sync.WaitGroup
 	ch := make(chan job)
